@@ -6,7 +6,7 @@ From BB.Model Require Channel Cleaner Buffer Callable Retry.
 Separate Extraction
   Channel.init Channel.step Channel.run Channel.spec_init Channel.spec_step Channel.spec_run Channel.abs
   Buffer.init Buffer.step Buffer.step_settled Buffer.run Buffer.clean Buffer.settle Buffer.buffer_range Buffer.pkg_range
-  Buffer.erun
+  Buffer.erun Buffer.getc Buffer.log
   Callable.call Callable.valid Callable.nilable Callable.expected_args Callable.expected_stores
   Retry.run_seam Retry.run Retry.calc_exact Retry.slot_ok Retry.max_shift_go Retry.default_rate_go Retry.OSuccess Retry.OFatal Retry.OPlain Retry.faithful
   Cleaner.default_cleaner Cleaner.fixed_cleaner Cleaner.clamp_shift Cleaner.default_spec.
